@@ -142,11 +142,18 @@ func c09Tokenizer(ci int, order int, k c09Cfg, fresh bool) *csv.CsvTokenizer {
 	// the setters are called in one of four orders (a configuration is a history of setter calls)
 	switch order {
 	case 0:
-		t.SetFieldSeparators(k.seps)
-		t.SetQuoteSymbols(k.quotes)
+		// separators first, both lists being parts of ONE array the caller owns (see case 1)
+		dialect := append(append(make([]rune, 0, len(k.seps)+len(k.quotes)+2), k.seps...), k.quotes...)
+		dialect = append(dialect, '~', '~')
+		t.SetFieldSeparators(dialect[:len(k.seps)])
+		t.SetQuoteSymbols(dialect[len(k.seps) : len(k.seps)+len(k.quotes)])
 	case 1:
-		t.SetQuoteSymbols(k.quotes)
-		t.SetFieldSeparators(k.seps)
+		// both lists are parts of ONE array the caller owns: the separators have spare capacity whose
+		// content (the quote symbols) the library must leave alone
+		dialect := append(append(make([]rune, 0, len(k.seps)+len(k.quotes)+2), k.seps...), k.quotes...)
+		dialect = append(dialect, '~', '~')
+		t.SetQuoteSymbols(dialect[len(k.seps) : len(k.seps)+len(k.quotes)])
+		t.SetFieldSeparators(dialect[:len(k.seps)])
 	case 2:
 		t.SetQuoteSymbols(k.quotes)
 		t.SetFieldSeparators(k.seps)
@@ -154,9 +161,10 @@ func c09Tokenizer(ci int, order int, k c09Cfg, fresh bool) *csv.CsvTokenizer {
 	case 4:
 		// as constructed
 	case 3:
-		t.SetFieldSeparators(k.seps)
-		t.SetQuoteSymbols(k.quotes)
-		t.SetQuoteSymbols(k.quotes)
+		dialect := append(append(make([]rune, 0, len(k.seps)+len(k.quotes)), k.quotes...), k.seps...)
+		t.SetFieldSeparators(dialect[len(k.quotes):])
+		t.SetQuoteSymbols(dialect[:len(k.quotes)])
+		t.SetQuoteSymbols(dialect[:len(k.quotes)])
 		t.SetFieldSeparators(append([]rune{}, k.seps...))
 	}
 	t.SetDecodeStrings(true)
